@@ -58,6 +58,7 @@ def _history_child(arg):
 
     models, steps = arg
     out = []
+    buffers = {}
     d = tempfile.mkdtemp(prefix="c14-")
     try:
         for si, (mi, cfg, entry) in enumerate(steps):
@@ -84,8 +85,17 @@ def _history_child(arg):
                         with open(p, "rb") as f:
                             res["out_model"] = f.read()
                     else:
-                        res["out_model"] = bytes(vela.convert_bytes(bytearray(data)))
-                        res["code"] = 0
+                        # the caller keeps ONE buffer per model for the whole history (an application that holds its model in memory and converts it again): the
+                        # compiler must leave that buffer alone
+                        buf = buffers.setdefault(mi, bytearray(data))
+                        try:
+                            res["out_model"] = bytes(vela.convert_bytes(buf))
+                            res["code"] = 0
+                        finally:
+                            if bytes(buf) != data:
+                                res = dict(code=None, exc=("InputBufferModified", "convert_bytes changed %d byte(s) of the caller's model buffer" % sum(1 for a, b in zip(bytes(buf), data) if a != b),
+                                                           "vela.py:convert_bytes", ""), out_model=None)
+                                buffers[mi] = bytearray(data)
             except SystemExit as e:
                 res["code"] = e.code if isinstance(e.code, int) else 1
             except BaseException as e:  # noqa
@@ -150,7 +160,7 @@ def history_strategy():
         base = draw(tflgen.network("npu", max_ops=4, big=False, dtypes=("int8", "int8", "uint8")))
         pool = [base]
         twins = False
-        how = draw(st.sampled_from(["lut-twin", "lut-twin", "independent", "same-weights"]))
+        how = draw(st.sampled_from(["lut-twin", "lut-twin", "independent", "same-weights", "same-buffer"]))
         if how == "lut-twin":
             # two networks ending in the same activation with equal quantisation -> identical LUT contents
             import copy
@@ -167,6 +177,16 @@ def history_strategy():
                 s["outputs"] = [len(s["tensors"]) - 1] + s["outputs"][1:]
                 pool.append(s)
             twins = True
+        elif how == "same-buffer":
+            # one model converted several times from the same in-memory buffer; its graph contains constants the compiler rewrites while optimising (a PAD over channels and
+            # rows is split and its paddings are changed): nothing of that may leak into the caller's buffer or into the next conversion
+            import copy
+            import corners
+
+            s2 = copy.deepcopy(draw(tflgen.network("exact", max_ops=2, big=False, dtypes=("int8", "int8", "uint8"))))
+            corners.pad_tail(s2, draw, st)
+            pool = [s2, base]
+            twins = True
         elif how == "independent":
             pool.append(draw(tflgen.network("npu", max_ops=4, big=False, dtypes=("int8", "int8", "uint8"))))
         else:
@@ -181,6 +201,8 @@ def history_strategy():
             c.pop("extra", None)
         n = draw(st.integers(2, 8))
         steps = [dict(model=draw(st.integers(0, len(pool) - 1)), cfg=draw(st.integers(0, len(cfgs) - 1)), entry=draw(st.sampled_from(["main", "main", "main", "convert", "convert_bytes"]))) for _ in range(n)]
+        if how == "same-buffer":
+            steps = [dict(model=0, cfg=0, entry="convert_bytes"), dict(model=0, cfg=0, entry="convert_bytes")] + steps[: max(0, n - 2)]
         return dict(kind="history", pool=pool, cfgs=cfgs, steps=steps, twins=twins)
 
     return case()
